@@ -17,8 +17,35 @@
   consisting of CR LF starts with an Indent token `"\r"`.
 -/
 import HL.Model.Lexer
+
+/-!
+  Token ends AS PINNED before the `fix:` commit for trailing blanks in ranges (findings
+  account-trailing-blank, commodity-text-trailing-blank, amount-trailing-blank of C08,
+  text-commodity-trailing-blank of C09): `scanAccount` and `scanText` built their token with
+  `End: l.position()` of the state the scan stopped in — behind a single blank that follows an
+  account name, behind the white space that follows a text — although the value stops at the
+  last character.  Only these two functions are copied; the loops and the lexer state they
+  leave behind are those of HL/Model/Lexer.lean (the repair changed nothing but the `End` field).
+  Used by `HL.Props.C08.pinned_*_trailing_blank_counterexample` and by the CRLF-era lexer below.
+-/
+namespace HL.Lex.PinnedTrail
+open HL HL.Utf8 HL.Lex
+
+def scanAccount (z : Z) : Token × Z :=
+  let (e, l) := scanAccountF z.after.length z z
+  mkTok .account (between z l) z e
+
+def scanText (z : Z) : Token × Z :=
+  let e := advLine (fun ch => !(ch == 0x3B || ch == 0x7C)) z
+  mkTok .text (trimSpace (between z e)) z e
+
+end HL.Lex.PinnedTrail
+
 namespace HL.Lex.Pinned
 open HL HL.Utf8 HL.Lex
+
+/-- the account token of that time ended where the scan stopped -/
+abbrev scanAccount := PinnedTrail.scanAccount
 
 def scanCode (z : Z) : Token × Z :=
   let z1 := advance z
